@@ -62,6 +62,8 @@ structure ASrc where
   bheSeen : Nat := 0
   lifeDue : Bool := false                -- lifecycle hooks expected in the current dispatch
   lifeOff : Bool := false                -- certainly not in the lifecycle set in the current dispatch (no hooks, or not enabled)
+  lifeMaybe : Bool := false              -- a successful `update` of a source that is not enabled (its registration survived a failed
+                                         -- unregistration) re-listed it: whether it has hooks is not judged until it is disabled or removed
   lastRet : Option Ret := none           -- what the user's callback returned last (in the current event processing)
   deriving Repr
 
@@ -151,7 +153,7 @@ def pendingCause (t : T) (k : Nat) (a : ASrc) : Bool :=
 /-- the status change of a completed (not deferred) removal / disable -/
 def T.markGone (t : T) (k : Nat) (st : Status) : T :=
   t.modSrc k fun a => { a with status := st, touched := true, goneOutside := a.goneOutside || t.running != some k,
-                               armed := false, tok := if st == .absent then none else a.tok }
+                               armed := false, tok := if st == .absent then none else a.tok, lifeMaybe := false }
 
 /-- resolve and apply what `k` asked for when its event processing finishes (C09) -/
 def T.applyPost (t : T) (k : Nat) (r : Option PA) : T :=
@@ -288,7 +290,8 @@ def onOpRes (t : T) (o : COp) (r : OpRes) : T :=
     | some a =>
       if a.status == .absent then t.flag .C06 s!"update of removed source {k} returned Ok"
       else if t.running == some k then { t with deferred := some .Reregister }
-      else t.modSrc k fun a => { a with touched := true, dirty := false, rr := a.ir, rw := a.iw, rmode := a.mode, disarmed := false,
+      else t.modSrc k fun a => { a with lifeMaybe := a.lifeMaybe || a.status != .enabled,
+                                        touched := true, dirty := false, rr := a.ir, rw := a.iw, rmode := a.mode, disarmed := false,
                                         armed := (if a.kind == .timer && a.status == .enabled then a.deadline.isSome else a.armed),
                                         armedInDisp := if a.kind == .timer && a.status == .enabled then t.inDispatch else a.armedInDisp }
     | none => t
@@ -338,7 +341,7 @@ def onObs (t : T) (x : Obs) : T :=
     let srcs := t.srcs.map fun (k, a) =>
       (k, { a with touched := false, armedInDisp := false, cbThisDispatch := 0, bsSeen := 0, synthSeen := false, bheSeen := 0,
                    lifeDue := a.life && a.status == .enabled && !a.unknown,
-                   lifeOff := !a.life || a.status != .enabled,
+                   lifeOff := !a.life || (a.status != .enabled && !a.lifeMaybe),
                    dueAtBegin := a.status == .enabled && !a.unknown && pendingCause t k a })
     -- documented: a changed parameter takes effect through `update`; dispatching in between is not judged
     let t := if t.srcs.any (fun (p : Nat × ASrc) => p.2.dirty && p.2.status == .enabled) then { t with wf := false } else t
